@@ -1137,25 +1137,13 @@ Variable eps : Z.
 Definition Inv (c : cache) : Prop := Rep c /\ Synced eps c /\ store_ok c.
 
 (* the API rules, stated against the informer store the cache was fed from *)
-(* setOversubscription never resets OversubscriptionResource: an annotation may be
-   absent only while the NodeInfo remembers no amount for it *)
-Definition over_kept (c : cache) (v : nodever) : Prop :=
-  let old := default no_attr (c_nattr c !! nv_id v) in
-  (nv_over_cpu v = None -> na_over_cpu old = 0) /\ (nv_over_mem v = None -> na_over_mem old = 0).
-
-Lemma eff_alloc_kept c v : over_kept c v -> no_alloc (eff_obj c v) = obj_alloc v.
-Proof.
-  intros [H1 H2]. unfold eff_obj, obj_alloc, node_attr, over_res. simpl.
-  destruct (nv_over_cpu v), (nv_over_mem v); simpl; rewrite ?H1, ?H2 by reflexivity; reflexivity.
-Qed.
-
 Lemma node_event_inv c v :
   Rep c -> sc (nv_base v) <> None ->
   Rep (node_event c v) /\
-  exists N, c_nodes (node_event c v) !! nv_id v = Some N /\ n_has_node N = true /\ n_alloc N = no_alloc (eff_obj c v).
+  exists N, c_nodes (node_event c v) !! nv_id v = Some N /\ n_has_node N = true /\ n_alloc N = obj_alloc v.
 Proof.
   intros R Hsc.
-  destruct (add_or_update_node_inv c (eff_obj c v) R) as [R1 H1].
+  destruct (add_or_update_node_inv c (eff_obj v) R) as [R1 H1].
   { simpl. apply sc_add_keep. exact Hsc. }
   split; [eapply rep_frame; [| | |exact R1]; reflexivity|exact H1].
 Qed.
@@ -1166,7 +1154,6 @@ Definition step_ok (c : cache) (e : event) : Prop :=
   | EPodDel _ | ENodeDel _ | EQueue _ | EQueueDel _ | EPGDel _ => True
   | EPG g => g_id g <> no_job
   | ENode v => sc (nv_base v) <> None       (* status.allocatable always lists "pods" *)
-               /\ over_kept c v            (* an oversubscription annotation, once set, is not removed *)
   | _ => False
   end.
 
@@ -1188,12 +1175,12 @@ Proof.
   intros (R & S & So) Hok. destruct e; simpl in Hok; try contradiction.
   - destruct Hok as [Hp Hu]. destruct (handle_pod_inv eps c p R S So Hp Hu) as (A & B & C & _). split; auto.
   - destruct (handle_pod_del_inv eps c id R S So) as (A & B & C & _). split; auto.
-  - split; [exact (proj1 (node_event_inv c v R (proj1 Hok)))|]. split; [exact S|exact So].
+  - split; [exact (proj1 (node_event_inv c v R Hok))|]. split; [exact S|exact So].
   - assert (E : c_heap (remove_node c id) = c_heap c /\ c_store (remove_node c id) = c_store c).
     { unfold remove_node, remove_node_ledger. destruct (c_nodes c !! id); [case_bool_decide|]; split; reflexivity. }
     destruct E as [E1 E2].
-    split; [exact (remove_node_inv c id R)|]. split; [unfold Synced; simpl; rewrite E1, E2; exact S|].
-    unfold store_ok. simpl. rewrite E2. exact So.
+    split; [exact (remove_node_inv c id R)|]. split; [unfold Synced, handle, handle_with; rewrite E1, E2; exact S|].
+    unfold store_ok, handle, handle_with. rewrite E2. exact So.
   - split; [exact (set_pod_group_inv c g R Hok)|]. split; [exact S|exact So].
   - assert (E : c_heap (delete_pod_group c id) = c_heap c /\ c_store (delete_pod_group c id) = c_store c).
     { unfold delete_pod_group. destruct (c_jobs c !! id); split; reflexivity. }
@@ -1262,8 +1249,7 @@ Proof.
     split; [rewrite E, Hst; reflexivity|]. exact (mirror_ext c _ _ Hne Hm).
   - destruct (handle_pod_del_inv eps c id R S So) as (_ & _ & _ & E & _ & Hne).
     split; [rewrite E, Hst; reflexivity|]. exact (mirror_ext c _ _ Hne Hm).
-  - destruct Hok as [Hsc Hk]. destruct (node_event_inv c v R Hsc) as (_ & N & HN & Hh & Ha).
-    rewrite (eff_alloc_kept c v Hk) in Ha.
+  - destruct (node_event_inv c v R Hok) as (_ & N & HN & Hh & Ha).
     split; [exact Hst|]. intros n. simpl. destruct (decide (n = nv_id v)) as [->|Hne].
     + rewrite lookup_insert. exists N. auto.
     + rewrite lookup_insert_ne by congruence. specialize (Hm n).
